@@ -459,6 +459,21 @@ func main() {
 					_ = os.WriteFile(path, []byte(key+"\nlast scenario: "+last+"\n\n"+tailFile(j.stderr, 400)), 0o644)
 					vios[key] = &violation{Key: key, Msg: fmt.Sprintf("a goroutine started by the library panicked and ended the process: %s (in %s); last scenario: %s", msg, short(frame), last), Replay: path, Count: 1}
 				}
+			} else if frame, ok := libraryStackOverflow(j.stderr); ok && prop != "C17" {
+				// the library's own recursion ran away on an input of the check
+				// and the runtime ended the process (not a panic: nothing can
+				// recover it). Every input of these checks is well formed, so
+				// this is the property failing, not the check; C17, which feeds
+				// garbage, keeps reporting such an end as a broken run (DESIGN §10.3).
+				key := "lib-stack-overflow:" + short(frame)
+				if v := vios[key]; v != nil {
+					v.Count++
+				} else {
+					path := filepath.Join(replayDir, fmt.Sprintf("%s-crash-%016x.txt", prop, fnv([]byte(key))))
+					_ = os.MkdirAll(replayDir, 0o755)
+					_ = os.WriteFile(path, []byte(key+"\nlast scenario: "+last+"\n\n"+firstLines(tailFile(j.stderr, 100000), 120)), 0o644)
+					vios[key] = &violation{Key: key, Msg: fmt.Sprintf("the library recursed until the runtime ended the process (fatal error: stack overflow in %s); last scenario: %s", short(frame), last), Replay: path, Count: 1}
+				}
 			} else {
 				broken = append(broken, fmt.Sprintf("pass %s shard %d did not finish (%s); last scenario: %s\n%s", j.p.Name, j.shard, why, last, tail))
 			}
@@ -797,6 +812,61 @@ func libraryGoroutinePanic(path string) (msg, frame string, ok bool) {
 		}
 	}
 	return msg, frame, frame != "" && created
+}
+
+// libraryStackOverflow inspects the stderr of a worker that died: it reports
+// the runtime's "fatal error: stack overflow" when the running goroutine's
+// innermost frame outside the runtime and the standard library is library
+// code and the visible part of its stack is library recursion (>= 10 frames).
+func libraryStackOverflow(path string) (frame string, ok bool) {
+	b, err := os.ReadFile(path)
+	if err != nil {
+		return "", false
+	}
+	s := string(b)
+	i := strings.Index(s, "fatal error: stack overflow")
+	if i < 0 {
+		return "", false
+	}
+	s = s[i:]
+	k := strings.Index(s, "[running]:\n")
+	if k < 0 {
+		return "", false
+	}
+	lib := 0
+	for _, ln := range strings.Split(s[k+len("[running]:\n"):], "\n") {
+		if ln == "" {
+			break
+		}
+		if strings.HasPrefix(ln, "\t") || strings.HasPrefix(ln, "...") || strings.HasPrefix(ln, "created by ") {
+			continue
+		}
+		fn := ln
+		if p := strings.LastIndexByte(fn, '('); p > 0 {
+			fn = fn[:p]
+		}
+		isLib := strings.HasPrefix(fn, "github.com/Breeze0806/gobinlog") || strings.HasPrefix(fn, "github.com/Breeze0806/mysql")
+		if isLib {
+			lib++
+		}
+		if frame == "" {
+			// standard-library frames have no '/' in front of the package's dot or start with a std path
+			first := fn
+			if d := strings.IndexByte(first, '.'); d > 0 {
+				first = first[:d]
+			}
+			std := !strings.Contains(first, ".") && !strings.HasPrefix(fn, "verifharness/") && !strings.HasPrefix(fn, "main.") && !strings.HasPrefix(fn, "github.com/")
+			switch {
+			case isLib:
+				frame = fn
+			case std:
+				continue
+			default:
+				return "", false
+			}
+		}
+	}
+	return frame, frame != "" && lib >= 10
 }
 
 func firstLines(s string, n int) string {
